@@ -1778,6 +1778,7 @@ fn rotate(i: u64, n: u64, seed: u64) -> u64 {
 fn main() {
     // a stack overflow / abort in the code under test must become a verdict, not a dead check
     vcore::supervise("C11");
+    vcore::install_log_evaluation(); // logging is part of the environment: log arguments are evaluated as under a real subscriber
     let ctx = Ctx::from_args("C11", "exploration");
     let thorough = !ctx.quick();
     let world = World::new();
